@@ -38,7 +38,7 @@ try:
     rc, out = subprocess.run(["python3", "/verif/tools/baseline.py"], env=dict(env, VERIF_REPO=wt), capture_output=True, text=True).returncode, ""
     res["existing_suite_passes"] = rc == 0
     ok, out = demo(); res["demo_fails_with_change"] = not ok; res["demo_output_with_change"] = out[-600:]
-    sh("git checkout -- .")
+    sh("git checkout -- . && git clean -fdq --exclude=_seed")
     ok2, out2 = demo(); res["demo_passes_without_change"] = ok2
     if not ok2: res["demo_output_without_change"] = out2[-600:]
     sh(f"git apply {PATCH}")
@@ -53,7 +53,7 @@ try:
         res["checks"][c] = {"caught": len(viol) > 0, "violations": len(viol), "first": site[:1], "summary": p.stdout.strip().splitlines()[-1][:200] if p.stdout.strip() else ""}
     shutil.rmtree(vd, ignore_errors=True)
 finally:
-    sh("git checkout -- .")
+    sh("git checkout -- . && git clean -fdq --exclude=_seed")
 dst = f"/verif/seeded/{prop}-{x}"; os.makedirs(dst, exist_ok=True)
 for f in glob.glob(f"{sd}/*"):
     if os.path.basename(f) in ("patch.diff", "patch.rebased.diff", "demo.sh", "demo_test.go.txt"):
